@@ -313,3 +313,104 @@ def ordering_rule(an: Analysis, rep, rule: str, entries):
                         f"`{norm_src(c)[:70]}` compares its elements with `<` and they can be {why}: when the leading components tie (e.g. two nested code objects on one line) "
                         f"the comparison reaches a value that does not support ordering and raises TypeError", config=entry)
     rep.add(rule, "key-less orderings examined", True, "code_data/", f"{n} call(s) in the closures of {list(entries)}", nontrivial=False)
+
+
+def truthiness_rule(an: Analysis, rep, rule: str, entries, fields):
+    """A value where 0 is meaningful and None means 'absent' is tested for absence with `is None`, never by truthiness.
+
+    `fields` lists (class, field) pairs declared Optional[int] whose 0 is a real value (a line number relative to the first line).
+    `x or y`, `if x`, `not x` on such a value treat line 0 like 'no line'."""
+    rep.rule(rule, "Optional line numbers are tested with `is None`, not by truthiness (0 is a line)", 1)
+    names = {f for _, f in fields}
+    n = 0
+
+    def from_field(it, e):
+        for a in it.value_at(e):
+            if a[0] == "src" and a[2]:
+                attrs = [st[1] for st in a[2] if st[0] == "a"]
+                if attrs and attrs[-1] in names and a[2][-1][0] in ("a", "nt", "t"):
+                    return attrs[-1]
+        return None
+    for entry in entries:
+        it, _ = an.interp(entry)
+        for f in an.closure(entry):
+            for node in ast.walk(f.node):
+                operands = []
+                if isinstance(node, ast.BoolOp):
+                    operands = node.values[:-1]
+                elif isinstance(node, (ast.If, ast.While, ast.IfExp)):
+                    t = node.test
+                    operands = t.values if isinstance(t, ast.BoolOp) else [t]
+                elif isinstance(node, ast.UnaryOp) and isinstance(node.op, ast.Not):
+                    operands = [node.operand]
+                for x in operands:
+                    if isinstance(x, (ast.Name, ast.Attribute, ast.Subscript)):
+                        n += 1
+                        fld = from_field(it, x)
+                        if fld:
+                            rep.add(rule, f"{f.qual}::truthiness of `{norm_src(x)}`", False, loc(f.module, x),
+                                    f"`{norm_src(x)}` can hold a value of `{fld}` (Optional[int], where 0 is the code object's first line): testing it by truthiness treats line 0 like "
+                                    f"'no line' - e.g. after a return to the first line the next line delta is computed from a stale line", config=entry)
+    rep.add(rule, "truthiness tests examined", True, "code_data/", f"{n} name / attribute operands of boolean contexts in the closures of {list(entries)}", nontrivial=False)
+
+
+def field_rewrite_rule(an: Analysis, rep, rule: str):
+    """A data class of the model stores what its constructor was given: no __post_init__ / __init__ / __new__ / __setattr__ that replaces a
+    field by something else than an order- and value-preserving conversion of itself (`tuple(self.f)`)."""
+    rep.rule(rule, "data classes keep the field values they are constructed with (no re-ordering / rewriting in __post_init__)", 1)
+    n = 0
+    for ci in data_classes(an):
+        for mname in ("__post_init__", "__init__", "__new__", "__setattr__"):
+            m = ci.methods.get(mname)
+            if m is None:
+                continue
+            self_ = m.params[0] if m.params else None
+            for c in ast.walk(m.node):
+                fld = val = None
+                if isinstance(c, ast.Call) and isinstance(c.func, ast.Attribute) and c.func.attr == "__setattr__" and len(c.args) == 3 and isinstance(c.args[1], ast.Constant):
+                    fld, val = c.args[1].value, c.args[2]
+                elif isinstance(c, ast.Call) and isinstance(c.func, ast.Name) and c.func.id == "setattr" and len(c.args) == 3 and isinstance(c.args[1], ast.Constant):
+                    fld, val = c.args[1].value, c.args[2]
+                elif isinstance(c, ast.Assign) and isinstance(c.targets[0], ast.Attribute) and isinstance(c.targets[0].value, ast.Name) and c.targets[0].value.id == self_:
+                    fld, val = c.targets[0].attr, c.value
+                if fld is None or ci.field(fld) is None:
+                    continue
+                n += 1
+                same = isinstance(val, ast.Attribute) and val.attr == fld
+                conv = isinstance(val, ast.Call) and isinstance(val.func, ast.Name) and val.func.id in ("tuple", "list") and len(val.args) == 1 \
+                    and isinstance(val.args[0], ast.Attribute) and val.args[0].attr == fld
+                rep.add(rule, f"{ci.qual}.{mname}::{fld}", same or conv, loc(ci.module, c),
+                        f"{fld} is converted with {norm_src(val)}: same elements, same order" if (same or conv) else
+                        f"`{norm_src(c)[:80]}` replaces the value given for `{fld}` by `{norm_src(val)[:50]}`: what the decoder found (e.g. the order in which the compiler listed the names) "
+                        f"is not what the data holds, so the data no longer says what CPython says and the encoder writes a different table")
+    rep.add(rule, "constructor hooks of the data classes examined", True, "code_data/__init__.py", f"{n} field store(s) in __post_init__ / __init__ / __new__ / __setattr__ of the data classes", nontrivial=False)
+
+
+def substring_rule(an: Analysis, rep, rule: str, entries):
+    """`x in y` where y is a single string (a field declared str / Optional[str]) is a substring test: 'a' in 'args' is true."""
+    rep.rule(rule, "no membership test against a single string where a name is meant (substring semantics)", 0)
+    n = 0
+    for entry in entries:
+        it, _ = an.interp(entry)
+        for f in an.closure(entry):
+            for c in ast.walk(f.node):
+                if not (isinstance(c, ast.Compare) and len(c.ops) == 1 and isinstance(c.ops[0], (ast.In, ast.NotIn))):
+                    continue
+                right = c.comparators[0]
+                vals = it.value_at(right)
+                srcs = [a for a in vals if a[0] == "src"]
+                if not srcs or len(srcs) != len([a for a in vals if a[0] != "const" or a[1] is not None]):
+                    continue
+                n += 1
+                leaves = set()
+                for a in srcs:
+                    t = an.tg.unfold_rec(it.src_type(a))
+                    if t[0] not in ("leaf", "union"):
+                        leaves.add(t[0])
+                    for y in an.tg.leaves_in(t):
+                        leaves.add(y[1] if y[0] == "leaf" else y[0])
+                if leaves and leaves <= {"str", "None"} and "str" in leaves and not isinstance(c.left, ast.Constant):
+                    rep.add(rule, f"{f.qual}::{norm_src(c)[:50]}", False, loc(f.module, c),
+                            f"`{norm_src(right)}` is one string (declared {sorted(leaves)}), so `{norm_src(c)}` asks whether the left side is a *substring* of it: the name 'a' is "
+                            f"'in' the name 'args', 'val' in 'values' - a parameter whose name is contained in another's is given the other's kind", config=entry)
+    rep.add(rule, "membership tests examined", True, "code_data/", f"{n} `in` tests whose right operand is a part of the argument, in the closures of {list(entries)}", nontrivial=False)
